@@ -23,11 +23,15 @@ func vPairInputs(L, K, O, ML int, opset []int) ([]byte, []vRec, []biogosam.Recor
 }
 
 // vInsertions: per reference boundary p (0..L: before base p), the inserted bases, from the harness's own
-// reading of the CIGARs. ok=false if two records insert at the same boundary (outside the claim).
+// reading of the CIGARs. Two records may report the SAME insertion at one boundary (overlapping supplementary
+// alignments do): it counts once. ok=false if two records insert different things at one boundary (conflicting
+// records, outside the claim).
 func vInsertions(vs []vRec, L int) ([][]byte, bool) {
 	ins := make([][]byte, L+1)
 	ok := true
 	for _, v := range vs {
+		// this record's own insertions per boundary (consecutive I operators concatenate)
+		own := make([][]byte, L+1)
 		q, r := 0, v.pos
 		for k, t := range v.types {
 			n := v.lens[k]
@@ -40,11 +44,25 @@ func vInsertions(vs []vRec, L int) ([][]byte, bool) {
 			case vS:
 				q += n
 			case vI:
-				if len(ins[r]) > 0 {
-					ok = false
-				}
-				ins[r] = append(ins[r], v.seq[q:q+n]...)
+				own[r] = append(own[r], v.seq[q:q+n]...)
 				q += n
+			}
+		}
+		for p := 0; p <= L; p++ {
+			if len(own[p]) == 0 {
+				continue
+			}
+			if len(ins[p]) == 0 {
+				ins[p] = own[p]
+				continue
+			}
+			// another record already inserts here: the same insertion seen twice, or a conflict
+			if len(ins[p]) != len(own[p]) {
+				ok = false
+				continue
+			}
+			for i := range own[p] {
+				vAssume(ins[p][i] == own[p][i])
 			}
 		}
 	}
